@@ -259,6 +259,9 @@ class SelWorld:
         # OR keeps which operand the current output stems from in two flags; their discipline is the loops' invariant
         vm.spec.loops[("OR.evaluate_left", 0)] = LoopSpec(inv=flag_is_false("right_evaluated"))
         vm.spec.loops[("OR.evaluate_right", 0)] = LoopSpec(inv=flag_is_false("left_evaluated"))
+        # ... and keyed by WHAT is iterated (the operand's result stream), should the loops move into helpers / a mixin
+        vm.spec.stream_loops["left@"] = vm.spec.loops[("OR.evaluate_left", 0)]
+        vm.spec.stream_loops["right@"] = vm.spec.loops[("OR.evaluate_right", 0)]
 
     def child_evaluate(self, vm, args, kwargs):
         from pyvc.values import SymStream
@@ -312,7 +315,8 @@ def h_except_if():
         def inv_right(it, fr):
             # "the boolean local of the frame" (the flag that remembers whether the exception produced a true result), whatever it is called
             from pyvc.values import SBool as _SB
-            flags = [v for k, v in fr.locals.items() if isinstance(v, (bool, _SB)) and k not in it.loop_targets(fr, 0) + it.loop_targets(fr, 1)]
+            targets = [n for o in range(4) for n in it.loop_targets(fr, o)]
+            flags = [v for k, v in fr.locals.items() if isinstance(v, (bool, _SB)) and k not in targets]
             if len(flags) != 1:
                 from pyvc.ctx import Unsupported
                 raise Unsupported(f"ExceptIf invariant: expected one boolean local (the 'exception matched' flag), found {len(flags)}")
@@ -323,6 +327,8 @@ def h_except_if():
             return z3.And(cnt >= 0, ryt == (cnt > 0))
         from pyvc.interp import LoopSpec
         vm.spec.loops[("ExceptIf._evaluate__", 1)] = LoopSpec(inv=inv_right)
+        vm.spec.stream_loops["right@"] = vm.spec.loops[("ExceptIf._evaluate__", 1)]
+        vm.spec.stream_loops.pop("left@", None)          # ExceptIf's loop over the rule's results needs no invariant
         src = vm.alloc(vm.ext("object"), {}, tag="incoming-bindings")
         n_updates = 0
         for res in vm.iterate(vm.call_method(W.node, "_evaluate__", src)):
